@@ -263,7 +263,7 @@ EXTRA = {
            "state-name table. With --ligand only atoms that received parameters are printed (ligand block on a model complex); the bundled tables are looked up in the package's data directory whatever files the working directory holds (lookup evaluated on a model file system).",
     "C02": "Also: the integrality guard comes after every parameter assignment and keeps a bounded tolerance; patches other than PEPTIDE act "
            "on a private copy; no list is modified while iterated in the terminus code; one TER record means two chains; input-named "
-           "variants get their own charge obligations; helper methods factored out of assign_termini are interpreted in place. set_termini is decided on model chains holding several terminated molecules under one chain identifier (every residue in exactly one chain, one terminus pair per molecule); chain shapes include an amide cap followed by hetero groups and an unknown residue inside a cyclic peptide.",
+           "variants get their own charge obligations; helper methods factored out of assign_termini are interpreted in place. set_termini is decided on model chains holding several terminated molecules under one chain identifier (every residue in exactly one chain, one terminus pair per molecule); chain shapes include an amide cap followed by hetero groups and an unknown residue inside a cyclic peptide. An mmCIF chain identifier longer than its PDB column is never cut to fit (layout analysis of the record assembly with over-long items): cutting would merge chains and their termini.",
     "C03": "Also shares the ingestion rules of C07 (identity, first alternate location, every record appended, reader stops only at end of "
            "file, pending residue flushed, only further models left out), patch isolation, the ligand block on a model complex (every "
            "ligand atom printed once, lists partition) and 'hydrogens are stripped only from residue classes that get them rebuilt'; "
@@ -272,17 +272,17 @@ EXTRA = {
            "Biomolecule.__init__ is decided by " + MODEL + " on six record lists. Chains holding several molecules are split without losing a residue (model chains); the warnings that report a deletion or a placement failure reach the user (io.DuplicateFilter evaluated on model records, 25 repetitions).",
     "C04": "The selection procedure is evaluated on the topology model whatever its code shape and must be history free (a memo is reset "
            "by every membership mutator); Flip caches exactly the atoms its rotation moves at every chain position; no statement turns "
-           "args.debump/args.opt on. debump_residue is evaluated on a model residue with three torsions in a neighbourhood that is never cured: every rotation moves the far side of the torsion being set; a stored coordinate that is rounded is not the rotated point (symbolic round stays uninterpreted).",
+           "args.debump/args.opt on. debump_residue is evaluated on a model residue with three torsions in a neighbourhood that is never cured: every rotation moves the far side of the torsion being set; a stored coordinate that is rounded is not the rotated point (symbolic round stays uninterpreted). utilities.shortest_path, which supplies the distance-to-CA rank, is evaluated on the ring side chains (PHE, TRP, HIS, PRO) for twelve listing orders each and must give the breadth-first distance.",
     "C05": "Also: the C(i-1)/N(i+1) frame pointers survive update_bonds only across a bond within the limit on every path (free tests "
            "explored both ways), the limit separates bonded from 1-3 template distances; completing an XH3 group reads the position of "
            "every hydrogen already present. Water.finalize is decided by " + MODEL + " on eight model waters (every combination of H1/LP1/LP2 "
            "present) under twelve scripted neighbourhoods, with positions as abstract points: both hydrogens are built and no two atoms "
-           "of the water share a point on any path.",
+           "of the water share a point on any path. Carboxylic.rename is evaluated on 24 model residues (ASH/GLH): the surviving acid hydrogen ends with the name whose template parent is the oxygen it sits on.",
     "C06": "Also: pKa and pH reach the comparison unmodified; rows of different titratable groups never share a key of the pKa table; "
            "patch isolation. The 'unsupported' warning must pass the duplicate-message filter on every repetition (filter evaluated on model records); nobody writes the pH option after parsing.",
     "C07": "Also: every ATOM/HETATM record read is appended to a residue; the record type is decided by the record-name columns; the "
            "name tested for 'already present' is the name the atom is filed under. The record classes, read_atom, drop_water and "
-           "Biomolecule.__init__ are decided by " + MODEL + " on model lines and record lists. set_termini on model chains with hidden molecules keeps every residue in exactly one chain.",
+           "Biomolecule.__init__ are decided by " + MODEL + " on model lines and record lists. set_termini on model chains with hidden molecules keeps every residue in exactly one chain. Sibling cross-check of the nucleotide table: an alternative atom name denotes the same atom in every nucleotide and is never another atom's plain name.",
     "C08": "Also: every print site forwards --keep-chain; pdb2pqr's own reader (read_pqr/from_pqr_line) is decided by " + MODEL + " on one "
            "line per layout the writer emits (lines formatted by the writer's own code); the precision of each numeric field is read from "
            "the path layouts, however the line is assembled (concatenation, join, helper). R7: the writer is evaluated on eleven model atoms whose fields fit the format and the line is read back by an independent reader (fixed wwPDB columns; blank-separated tokens for --whitespace) to the stated precision; the whole file print_pqr writes (both input formats, both spacings, atoms of a residue called TER) is read back by read_pqr.",
@@ -292,7 +292,7 @@ EXTRA = {
            "namespaces (option x force-field spelling x pH).",
     "C10": "Also: every atom_site row is visited; `a or b` is forked like a conditional expression by the layout engine; models are handed "
            "on in order of first appearance (count_models on model rows); get_molecule is decided by " + MODEL + " on 13 paths (suffix "
-           "in any letter case, suffix-like directory and stem) with and without reader errors. count_models is evaluated on a model of the parser's category for three files read in one process with different item orders.",
+           "in any letter case, suffix-like directory and stem) with and without reader errors. count_models is evaluated on a model of the parser's category for three files read in one process with different item orders. atom_site is evaluated on a model of the parser's category (a cap in front of the chain, a modified residue inside it, one and two models): coordinate records come out in row order; an item longer than its column is never cut.",
     "C11": "Also: mutations through a local alias of a shared object; a list extended by a set; positive controls for both. Objects created by a call at import time live as long as the process: an ambient source there, or a method called on such an object at run time, is reported (loggers and pure constructors allow-listed by name); the lookup of bundled tables ignores the working directory (model file system).",
     "C12": "Also: the integrality guard is a must-pass after every parameter assignment; patch isolation; calls inside the output block "
            "are judged by their resolved raise sets; the 'remember the failure, raise later' handler idiom is recognised structurally. "
@@ -307,12 +307,12 @@ EXTRA = {
     "C15": "R3/R4 are decided by symbolic evaluation: qtrfit on two symbolic point pairs (Horn identity on the matrix actually handed to "
            "the diagonaliser; the eigenvector reaches q2mat unmodified on every path), set_dihedral_angle and rotate_tetrahedral on atoms "
            "with symbolic coordinates (axis, origin, angle, near side fixed, cached torsion re-measured after the move). dihedral()'s "
-           "snap window folds to less than 0.05 degree. The Jacobi sweep cap is not decided. R7: effect analysis of quatfit.py - the functions the pipeline calls modify none of the point lists they are given (directly, through a view, or through a callee). R8 lists the part of the torsion table R4 presupposes (no rotated bond in a ring, whole far side rotated).",
+           "snap window folds to less than 0.05 degree. The Jacobi sweep cap is not decided. R7: effect analysis of quatfit.py - the functions the pipeline calls modify none of the point lists they are given (directly, through a view, or through a callee). R8 lists the part of the torsion table R4 presupposes (no rotated bond in a ring, whole far side rotated). The four atoms of every tabulated torsion (residues and patched forms) are bonded in a row.",
     "C16": "Also: per-cycle updates from start-of-cycle charges only; first of equivalent atoms; the ligand block on a model complex (a "
            "ligand atom also known to the force field, a water with ligand-like hydrogen names, an ion after the ligand): each ligand "
            "atom printed once with the MOL2 values, nothing else touched; hydrogens are stripped only where they are rebuilt. Formal "
            "charges and their sum are decided by " + MODEL + " on ethanol, acetate and methyl phosphate in three bond listings; "
-           "assign_radius on five table probes (type hit, element fallback, secondary table, miss raises). R10: the residue constructors are evaluated on model records: atoms of amino acids and nucleotides are typed ATOM whatever the input record type (the ligand block relies on it), an atom name listed twice is held once.",
+           "assign_radius on five table probes (type hit, element fallback, secondary table, miss raises). R10: the residue constructors are evaluated on model records: atoms of amino acids and nucleotides are typed ATOM whatever the input record type (the ligand block relies on it), an atom name listed twice is held once. Model molecules cover the type table (pyridine, ring-fusion aromatic nitrogen, sulfone, nitrile, ammonium, amide, thioether, halides) with the total formal charge chemistry gives them.",
     "C17": "Running extrema decided semantically; Psize (parse_lines .. __str__) is decided by " + MODEL + " on a one-atom file, spread atoms "
            "and a system above the memory ceiling: extrema, charge, counts, enclosure, multigrid-legal counts, the memory figure of the "
            "report and the per-processor grid. R8: io.dump_apbs and inputgen.Input/Elec are evaluated on a file-system model holding the PQR file print_pqr wrote (read(n) hands out short blocks): for every solution method the text names that file and states the grid, lengths and processor grid the sizing object computed.",
